@@ -176,12 +176,54 @@ func UnmarshalJSONWithoutValidation(
 	return unmarshalJSONInternal(sn, json_input, schema.DontValidate, JSON)
 }
 
+// maxNestingDepth is the nesting limit of encoding/json.
+const maxNestingDepth = 10000
+
+// checkNestingDepth scans a JSON text and reports nesting of arrays and
+// objects beyond max.  Brackets inside strings do not count; whether
+// the text is well-formed is left to the decoder.
+func checkNestingDepth(text []byte, max int) error {
+	depth := 0
+	inString := false
+	for i := 0; i < len(text); i++ {
+		c := text[i]
+		if inString {
+			switch c {
+			case '\\':
+				i++
+			case '"':
+				inString = false
+			}
+			continue
+		}
+		switch c {
+		case '"':
+			inString = true
+		case '[', '{':
+			depth++
+			if depth > max {
+				return fmt.Errorf("exceeded max depth")
+			}
+		case ']', '}':
+			depth--
+		}
+	}
+	return nil
+}
+
 func unmarshalJSONInternal(
 	sn schema.Node,
 	json_input []byte,
 	valType schema.ValidationType,
 	enc EncType,
 ) (datanode.DataNode, error) {
+
+	// The RFC 7951 decoder recurses once per nesting level without a limit
+	// (encoding/json stops at 10000): a few megabytes of '[' would exhaust
+	// the goroutine stack, which is fatal for the whole process.
+	if err := checkNestingDepth(json_input, maxNestingDepth); err != nil {
+		return nil, err
+	}
 
 	jr := JSONReader{decodedName: sn.Name()}
 	// Numbers are kept as written (see decodeValue).
